@@ -34,7 +34,28 @@ def parsePath : String → Option Path
   | "vaultFlashLoan" => some .vaultFlashLoan
   | "vaultRouterLoan" => some .vaultRouterLoan
   | "vaultCollectFees" => some .vaultCollectFees
+  | "vaultConfigStranger" => some .vaultConfigStranger
+  | "vaultCallbackExternal" => some .vaultCallbackExternal
   | _ => none
+
+/-- who borrows: `d` the borrower contract directly, `r` the vault router with the borrower contract
+    acting from the router's payload, `rs` the vault router sending the inner message itself -/
+def parseOuter : String → Option Path
+  | "d" => some .vaultFlashLoan
+  | "r" => some .vaultRouterLoan
+  | "rs" => some .vaultRouterLoan
+  | _ => none
+
+def parseMode : String → Option Mode
+  | "p" => some .propagate
+  | "c" => some .catch
+  | _ => none
+
+def showSw : Option Switch → String
+  | some .a => "a"
+  | some .b => "b"
+  | some .c => "c"
+  | none => "-"
 
 def parseFamily : String → Option Family
   | "cp" => some .pair
@@ -49,6 +70,13 @@ def parseBase : String → Option (Res Unit)
   | "err" => some .err
   | "panic" => some .panic
   | _ => none
+
+/-- twin outcomes that may be unobservable (`na`): the inner record of a twin transaction that did not
+    commit (then `base` is not `ok` and either value of `inner` yields `base`), and the caught-failure
+    reference of a `p`-mode line (unused) -/
+def parseBaseNa (dflt : Res Unit) : String → Option (Res Unit)
+  | "na" => some dflt
+  | s => parseBase s
 
 def bit (b : Bool) : String := if b then "1" else "0"
 def showFlags (f : Flags) : String := s!"a={bit f.a} b={bit f.b} c={bit f.c}"
@@ -124,6 +152,27 @@ def togglesOp (t : TogglesSt) (ws : List String) : TogglesSt × String :=
         | .panic => (t, "panic unchanged=1 " ++ showFlags t.st.flags ++ " " ++ showNamed p)
       | none => (t, "bad-op")
     | _, _ => (t, "bad-op")
+  | ["inloan", o, p, m, rep, b, ib, fb] =>
+    -- a flash loan whose borrower sends vault message `p` from inside the callback; `rep` (repayment
+    -- exact / generous) only selects the twin outcomes
+    if rep != "x" && rep != "g" then (t, "bad-op") else
+    let m3 := kvs [b, ib, fb]
+    match parseOuter o, parsePath p, parseMode m, m3.lookup "base", m3.lookup "ibase", m3.lookup "fbase" with
+    | some outer, some inner, some mode, some bs, some ibs, some fbs =>
+      match parseBase bs, parseBaseNa (.ok ()) ibs, parseBaseNa .err fbs with
+      | some base, some ibase, some fbase =>
+        if t.fam != .vault || inner.family != .vault || (o == "rs" && mode != .propagate) then (t, "bad-op") else
+        let lb : LoanBase := { inner := ibase, done := base, caught := fbase }
+        let r := stepInLoan t.st outer inner mode lb
+        let named := s!"named={showSw outer.names}/{showSw inner.names}"
+        match step (fun _ => .ok ()) t.st (.inLoan outer inner mode lb) with
+        | .ok s =>
+          let i := match r.inner with | some true => "ok" | some false => "err" | none => "-"
+          ({ t with st := s }, "ok " ++ showFlags s.flags ++ " " ++ named ++ " inner=" ++ i)
+        | .err => (t, "err unchanged=1 " ++ showFlags t.st.flags ++ " " ++ named)
+        | .panic => (t, "panic unchanged=1 " ++ showFlags t.st.flags ++ " " ++ named)
+      | _, _, _ => (t, "bad-op")
+    | _, _, _, _, _, _ => (t, "bad-op")
   | _ => (t, "bad-op")
 
 end Driver.TogglesD
